@@ -111,24 +111,37 @@ def parseSelection (s : Str) : Except String (Str × Expr) :=
 def upperChar (c : Char) : Char :=
   if c.toNat = 0x17F then 'S' else c.toUpper
 
-/-- `Sorter::from_str`: `<getter> [ASC|DESC]` in any letter case -/
-def parseSorter (s : Str) : Except String (Expr × Bool) :=
+/-- the direction word after the getter: nothing or `ASC` = ascending, `DESC` = descending,
+in any letter case; anything else is `UnknownOrder` -/
+def directionOf (t : Str) : Except String Bool :=
+  let dir := (trimStr t).map upperChar
+  if dir = [] ∨ dir = "ASC".toList then .ok false
+  else if dir = "DESC".toList then .ok true
+  else .error "UnknownOrder"
+
+/-- getter, then everything up to the end of the text (starting at the look-ahead byte) -/
+def parseSorterParts (s : Str) : Except String (Expr × Str) :=
   let fuel := exprFuel s
   let m : EM (Expr × List Byte) := do
     liftP (Reader.eatWhitespace fuel)
     let e ← readGetter fuel
-    let rest ← readRest fuel []
+    let rest ← readRestPeek fuel []
     pure (e, rest)
   match (m (Reader.ofString s)).1 with
   | .error e => .error (exprErrText e)
   | .ok (e, rest) =>
     match utf8Decode? rest with
     | none => .error "utf8"
-    | some t =>
-      let dir := (trimStr t).map upperChar
-      if dir = [] ∨ dir = "ASC".toList then .ok (e, false)
-      else if dir = "DESC".toList then .ok (e, true)
-      else .error "UnknownOrder"
+    | some t => .ok (e, t)
+
+/-- `Sorter::from_str`: `<getter> [ASC|DESC]` -/
+def parseSorter (s : Str) : Except String (Expr × Bool) :=
+  match parseSorterParts s with
+  | .error e => .error e
+  | .ok (e, t) =>
+    match directionOf t with
+    | .error x => .error x
+    | .ok desc => .ok (e, desc)
 
 inductive PreSetVal where
   | macro_ (e : Expr)
